@@ -1,0 +1,160 @@
+//! verif-hooks only (C11): a fixture around the real `Rib`, the real ingress
+//! `Register` and the real `PrefixesApi`, so that an external harness can
+//! populate a RIB and issue HTTP queries against
+//! `PrefixesApi::process_request` in-process. Nothing here re-implements
+//! behaviour: every method is a thin call into the crate-private items.
+use std::sync::Arc;
+
+use arc_swap::ArcSwap;
+use hyper::{Body, Request};
+use inetnum::{addr::Prefix, asn::Asn};
+use rotonda_store::prelude::multi::RouteStatus;
+use routecore::bgp::{
+    message::PduParseInfo, path_attributes::OwnedPathAttributes,
+};
+
+use crate::{
+    common::frim::FrimMap,
+    http::ProcessRequest,
+    ingress::{self, IngressInfo},
+    payload::{RotondaPaMap, RotondaRoute},
+    roto_runtime::types::Provenance,
+};
+
+use super::{
+    http::PrefixesApi,
+    rib::Rib,
+    unit::{MoreSpecifics, QueryLimits, RibType},
+};
+
+pub struct RibQueryFixture {
+    rib: Arc<ArcSwap<Rib>>,
+    register: Arc<ingress::Register>,
+    api: PrefixesApi,
+}
+
+impl RibQueryFixture {
+    /// A physical RIB (`Rib::new_physical`) served by a `PrefixesApi` at
+    /// `api_path` with the given more-specifics limits.
+    pub fn new(api_path: &str, shortest_v4: u8, shortest_v6: u8) -> Self {
+        let rib = Arc::new(ArcSwap::from_pointee(Rib::new_physical()));
+        let register = Arc::new(ingress::Register::new());
+        let limits = QueryLimits {
+            more_specifics: MoreSpecifics {
+                shortest_prefix_ipv4: shortest_v4,
+                shortest_prefix_ipv6: shortest_v6,
+            },
+        };
+        let api = PrefixesApi::new(
+            rib.clone(),
+            Arc::new(api_path.to_string()),
+            Arc::new(ArcSwap::from_pointee(limits)),
+            RibType::Physical,
+            None,
+            Arc::new(FrimMap::default()),
+            register.clone(),
+        );
+        Self { rib, register, api }
+    }
+
+    /// The default limits of `QueryLimits::default()` as `(v4, v6)`.
+    pub fn default_limits() -> (u8, u8) {
+        let l = QueryLimits::default();
+        (
+            l.more_specifics.shortest_prefix_ipv4,
+            l.more_specifics.shortest_prefix_ipv6,
+        )
+    }
+
+    /// `Register::update_info(id, IngressInfo{remote_asn, ..})`.
+    pub fn set_ingress(&self, id: u32, remote_asn: Option<u32>) {
+        let mut info = IngressInfo::new();
+        if let Some(asn) = remote_asn {
+            info = info.with_remote_asn(Asn::from_u32(asn));
+        }
+        self.register.update_info(id, info);
+    }
+
+    fn route(
+        prefix: Prefix,
+        multicast: bool,
+        raw_attrs: Vec<u8>,
+    ) -> Result<RotondaRoute, String> {
+        let pamap = RotondaPaMap(OwnedPathAttributes::new(
+            PduParseInfo::modern(),
+            raw_attrs,
+        ));
+        let e = |e| format!("{e}");
+        Ok(match (prefix.is_v4(), multicast) {
+            (true, false) => RotondaRoute::Ipv4Unicast(
+                prefix.try_into().map_err(e)?,
+                pamap,
+            ),
+            (false, false) => RotondaRoute::Ipv6Unicast(
+                prefix.try_into().map_err(e)?,
+                pamap,
+            ),
+            (true, true) => RotondaRoute::Ipv4Multicast(
+                prefix.try_into().map_err(e)?,
+                pamap,
+            ),
+            (false, true) => RotondaRoute::Ipv6Multicast(
+                prefix.try_into().map_err(e)?,
+                pamap,
+            ),
+        })
+    }
+
+    /// `Rib::insert(route, status, Provenance::for_bgp(mui, ..), ltime)`.
+    /// With `active == false` this is the per-(prefix, ingress) withdrawal.
+    pub fn insert(
+        &self,
+        prefix: Prefix,
+        multicast: bool,
+        mui: u32,
+        active: bool,
+        raw_attrs: Vec<u8>,
+        ltime: u64,
+    ) -> Result<(), String> {
+        let route = Self::route(prefix, multicast, raw_attrs)?;
+        let status = if active {
+            RouteStatus::Active
+        } else {
+            RouteStatus::Withdrawn
+        };
+        let prov = Provenance::for_bgp(
+            mui,
+            "192.0.2.1".parse().unwrap(),
+            Asn::from_u32(0),
+        );
+        self.rib.load().insert(&route, status, prov, ltime).map(|_| ())
+    }
+
+    /// `Rib::withdraw_for_ingress(mui, None)`.
+    pub fn withdraw_ingress(&self, mui: u32) {
+        self.rib.load().withdraw_for_ingress(mui, None)
+    }
+
+    /// `GET uri` through `PrefixesApi::process_request`. `None` when the
+    /// processor declines the request; otherwise status and body.
+    pub async fn get(&self, uri: &str) -> Result<Option<(u16, String)>, String> {
+        let request = Request::builder()
+            .method("GET")
+            .uri(uri)
+            .body(Body::empty())
+            .map_err(|e| format!("bad-uri {e}"))?;
+        match self.api.process_request(&request).await {
+            None => Ok(None),
+            Some(res) => {
+                let status = res.status().as_u16();
+                let bytes = hyper::body::to_bytes(res.into_body())
+                    .await
+                    .map_err(|e| e.to_string())?;
+                Ok(Some((
+                    status,
+                    String::from_utf8_lossy(&bytes).into_owned(),
+                )))
+            }
+        }
+    }
+}
